@@ -132,6 +132,13 @@ def inputs(ctx, h, which, selfcheck=True):
                 p = ctx.path(tag + ".ndjson")
                 core.write_ndjson(p, recs)
                 out.append((tag, p))
+            if ctx.prop == "C20":
+                # longer sequences over three keys: orders of sibling tables around a promoted super-table
+                tag = "doc-narrow-n%d" % (5 if ctx.quick else 6)
+                recs = gen_doc_cases(ctx, 5 if ctx.quick else 6, 3, 0, tag, False, narrow=1)
+                p = ctx.path(tag + ".ndjson")
+                core.write_ndjson(p, recs)
+                out.append((tag, p))
             return out
         if ctx.prop == "C09":
             models = [(3, 3, 0, "doc-n3p3v0"), (2, 3, 2, "doc-n2p3r")] if ctx.quick else \
